@@ -24,7 +24,8 @@ func init() {
 			"C14.swap: DefaultComparePreRelease evaluated over the length orderings with the scan left uninterpreted: out(a,b) = −out(b,a) holds syntactically for len(a) ≠ len(b); for equal lengths the residual obligation cPR(a,b) = −cPR(b,a) is listed as not decided. C14.suffix: the remainder comparison as a decision table: all-digit remainders are ordered by length after trimming zeros, then lexically; anything else lexically; the sign convention is that of the caller. " +
 			"C14.core: Ver.Compare over the 27 core orderings (as C06.core) gives reflexivity on the core and antisymmetry of the core part. C14.build: no read of Ver.Build on the comparison path. " +
 			"C14.latest: Ver.Latest returns one of its two operands unchanged and the argument only when Compare = −1. C14.entry: the six string helpers (as C06.entry), including: an error is returned only behind the failing edge of one of the two parse calls, so a helper fails exactly when a text is invalid for its parser, and every success return carries the result of the method applied to the two parsed values (no shortcut on the texts). " +
-			"C14.scan: the byte scan hands the remainder comparison the two operands cut at one common index up to their ends, and ends with 0 under equal lengths (C06.scan under this property: the structural part of antisymmetry for equal lengths). C14.next: NextMajor/Minor/Patch results are (inc,0,0), (copy,inc,0), (copy,copy,inc) with empty PreRelease/Build, inc being word 0 of bits.Add64(field,1,0), and the only panic is on the carry ≠ 0 edge. C14.parse: the helpers' parser as a decision table with its capture → field mapping through strconv.ParseUint (as C03.gate / C06.parse): a text is refused exactly when it is outside the grammar or a component exceeds 64 bits. In C14.swap each distinct callee of DefaultComparePreRelease is a term of its own (two different scan functions on two branches do not cancel). C14.lang: the language of sem.pattern is the SemVer 2.0.0 grammar (C03.lang under this property): a helper errs exactly when a text is invalid.",
+			"C14.scan: the byte scan hands the remainder comparison the two operands cut at one common index up to their ends, and ends with 0 under equal lengths (C06.scan under this property: the structural part of antisymmetry for equal lengths). C14.next: NextMajor/Minor/Patch results are (inc,0,0), (copy,inc,0), (copy,copy,inc) with empty PreRelease/Build, inc being word 0 of bits.Add64(field,1,0), and the only panic is on the carry ≠ 0 edge. C14.parse: the helpers' parser as a decision table with its capture → field mapping through strconv.ParseUint (as C03.gate / C06.parse): a text is refused exactly when it is outside the grammar or a component exceeds 64 bits. In C14.swap each distinct callee of DefaultComparePreRelease is a term of its own (two different scan functions on two branches do not cancel). C14.lang: the language of sem.pattern is the SemVer 2.0.0 grammar (C03.lang under this property): a helper errs exactly when a text is invalid." +
+			" Added after the second rule audit: C14.suffix 'cut': the index at which the remainders are cut is the first differing position, possibly moved back by a loop (or helper, or TrimRight of the common prefix) that reads only the index and the byte in front of it — a cut that depends on a byte at or behind the difference is not the same for both argument orders; every two-argument callee returned at a difference is tabulated; C14.lang carries the skeleton; C14.entry accepts `return x, err` where err is known nil; Latest may compare in either direction (the mirrored sign).",
 		NotDecided:  []string{"antisymmetry of the remainder comparison on the values (C14.suffix gives its decision table, C14.scan that both calls compare the same two remainders at one common index; that strings.Compare / the digit-run order of two texts is antisymmetric is taken from the table, not re-proved per value)"},
 		Assumptions: []string{"strings.Compare ∈ {−1,0,1} and is antisymmetric", "bits.Add64 returns sum and carry"},
 		Technique:   "predicate abstraction with uninterpreted callees + constant-set propagation over go/ssa",
